@@ -78,18 +78,18 @@ void harness(void)
 	for (unsigned i = 0; i < NEV; i++) {
 		const long long e = in.ev[i];
 		ASSUME(e >= 0 && e <= 7);
-		if (e == 0) {
-			due(&WA, 1, la);
-		} else if (e == 1) {
-			due(&WB, 2, lb);
+		/* one call site per kind of event keeps the formula small: the task / the
+		 * child slot is selected symbolically */
+		const int which = (e == 0 || e == 6) ? 1 : 2;
+		if (e <= 1) {
+			due(e == 0 ? &WA : &WB, e == 0 ? 1 : 2, e == 0 ? la : lb);
 		} else if (e <= 5) {
 			const unsigned k = (unsigned)e - 2U;
-			const int which = env_chl[k] != NULL ? sup_task[k] : 0;
-			if (env_child_exit(k) && which) {
-				run_sup[which]--;
+			const int wk = env_chl[k] != NULL ? sup_task[k] : 0;
+			if (env_child_exit(k) && wk) {
+				run_sup[wk]--;
 			}
 		} else {
-			const int which = (int)e - 5;
 			if (run_unsup[which]) run_unsup[which]--;
 		}
 		CHECK(!env_overflow, "watcher registry of the stand-in not exhausted (bound of this harness)");
